@@ -196,6 +196,33 @@ Symmetric == \A i \in 1..N :
                 /\ \A k \in 1..N : Image(Op(i), k) \in PlacementSet
 
 -----------------------------------------------------------------------------
+(* Multi-site re-description.  The crystal of group g with one occupied    *)
+(* site is also a p1 crystal with N occupied sites: site k sits at Frac(k) *)
+(* and is turned by the rotation whose first column is the first column of *)
+(* Lin(k).  For a proper operation that rotation is Lin(k) itself; for an  *)
+(* improper one Lin(k) = RotLin(k) . diag(1, -1), so the body drawn is the *)
+(* same exactly when the shape is its own mirror image in its local x axis *)
+(* (squares, kites, circles, straight trimers; not the chiral quad).  Every *)
+(* observable of the crystal (verdict, score, set of bodies) then has to   *)
+(* be the same for both descriptions: the real code is run on both         *)
+(* (PackedState with N sites through its multi-site loops).                *)
+RotLin(k) == << Lin(k)[1], -Lin(k)[3], Lin(k)[3], Lin(k)[1] >>
+ApplyLin(L, v) == << L[1] * v[1] + L[2] * v[2], L[3] * v[1] + L[4] * v[2] >>
+Body(L) == IF sh.kind = "poly"
+           THEN { ApplyLin(L, sh.verts[i]) : i \in 1..Len(sh.verts) }
+           ELSE { << ApplyLin(L, <<sh.discs[i][1], sh.discs[i][2]>>), sh.discs[i][3] >> : i \in 1..Len(sh.discs) }
+SameBody(k) == Body(Lin(k)) = Body(RotLin(k))
+Proper(k) == Op(k)[1] * Op(k)[4] - Op(k)[2] * Op(k)[3] = 1
+MirrorSym == Body(<<1, 0, 0, -1>>) = Body(<<1, 0, 0, 1>>)
+Redescribable == \A k \in 1..N : SameBody(k)
+\* <<x, y, cos, sin>> of site k of the p1 description (positions over D, direction over Hh)
+AsSites == [k \in 1..N |-> << Frac(k)[1], Frac(k)[2], Lin(k)[1], Lin(k)[3] >>]
+SitesLemma == /\ \A k \in 1..N : Proper(k) => Lin(k) = RotLin(k)
+              /\ \A k \in 1..N : Lin(k)[1] * Lin(k)[1] + Lin(k)[3] * Lin(k)[3] = Hh * Hh
+              /\ MirrorSym => Redescribable
+              /\ (\A k \in 1..N : Proper(k)) => Redescribable
+
+-----------------------------------------------------------------------------
 (* C03: the energy of the infinite crystal per molecule, for a pair energy *)
 (* that depends on the displacement of the two molecule centres only and   *)
 (* has finite support: W(d2) = max(0, cw - d2), d2 the squared distance in *)
